@@ -123,7 +123,8 @@ def ctor_strategy(fmt):
     return st.just({})
 
 
-EDITS = ["add_style", "caption_style", "append_node", "node_text", "times", "retime", "set_styles_key"]
+EDITS = ["add_style", "caption_style", "append_node", "node_text", "times", "retime", "set_styles_key",
+         "style_node_content", "style_node_content"]
 
 
 class State:
@@ -239,6 +240,16 @@ def exec_step(st_, step, rec):
                 for nd in c.nodes:
                     if nd.type_ == CaptionNode.TEXT:
                         nd.content = nd.content + "!"
+                        break
+            elif kind == "style_node_content" and caps:
+                done = False
+                for c in caps:
+                    for nd in c.nodes:
+                        if nd.type_ == CaptionNode.STYLE and isinstance(nd.content, dict):
+                            nd.content["verif-bold"] = True
+                            done = True
+                            break
+                    if done:
                         break
             elif kind == "times" and caps:
                 c = caps[step.get("n", 0) % len(caps)]
